@@ -119,7 +119,10 @@ impl DcpsDomainParticipant {
             entity_id.entity_key()[2],
             entity_id.entity_kind(),
         ]);
-        self.reader_counter += 1;
+        self.reader_counter = self
+            .reader_counter
+            .checked_add(1)
+            .ok_or(DdsError::OutOfResources)?;
         let reliablity_kind = match qos.reliability.kind {
             ReliabilityQosPolicyKind::BestEffort => ReliabilityKind::BestEffort,
             ReliabilityQosPolicyKind::Reliable => ReliabilityKind::Reliable,
